@@ -571,4 +571,8 @@ def requests : List (Nat × String) := [(0x20, "GetStatusRequest"), (0x30, "SetT
 /-- messages/responses.go: function code ↦ response type -/
 def responses : List (Nat × String) := [(0x20, "GetStatusResponse"), (0x30, "SetTimeResponse"), (0x32, "GetTimeResponse"), (0x40, "OpenDoorResponse"), (0x50, "PutCardResponse"), (0x52, "DeleteCardResponse"), (0x54, "DeleteCardsResponse"), (0x58, "GetCardsResponse"), (0x5a, "GetCardByIDResponse"), (0x5c, "GetCardByIndexResponse"), (0x80, "SetDoorControlStateResponse"), (0x82, "GetDoorControlStateResponse"), (0x88, "SetTimeProfileResponse"), (0x8a, "ClearTimeProfilesResponse"), (0x8c, "SetDoorPasscodesResponse"), (0x8e, "RecordSpecialEventsResponse"), (0x90, "SetListenerResponse"), (0x92, "GetListenerResponse"), (0x94, "GetDeviceResponse"), (0x98, "GetTimeProfileResponse"), (0xa0, "SetPCControlResponse"), (0xa2, "SetInterlockResponse"), (0xa4, "ActivateAccessKeypadsResponse"), (0xa6, "ClearTaskListResponse"), (0xa8, "AddTaskResponse"), (0xaa, "SetFirstCardResponse"), (0xac, "RefreshTaskListResponse"), (0xb0, "GetEventResponse"), (0xb2, "SetEventIndexResponse"), (0xb4, "GetEventIndexResponse"), (0xc8, "RestoreDefaultParametersResponse")]
 
+/-- conditions of the if statements of UnmarshalRequest / UnmarshalResponse, in order -/
+def requestsChecks : List String := ["len(bytes) != 64", "bytes[0] != 0x17", "f == nil", "err != nil"]
+def responsesChecks : List String := ["len(bytes) != 64", "bytes[0] != 0x17", "f == nil", "err != nil"]
+
 end Uhppote.Gen.Messages
